@@ -99,6 +99,60 @@ func generate() {
 		do(fmt.Sprintf("get %d", u))
 	}
 
+	// ---- loading the user hash: where "SHM = .PASSWDS" comes from; under both values of ptttype.USE_COOLDOWN -------
+	for _, cd := range []int{1, 0} {
+		// (a) a fresh start on a table with balances: SHM starts from whatever, .PASSWDS holds the balances
+		shm0 := make([]int64, nSlot)
+		seed++
+		do(resetLine(nSlot, 0, seed, shm0, baseBalances()))
+		do(fmt.Sprintf("config %d", cd))
+		do("loaduhash 0")
+		do("get 1")
+		do(fmt.Sprintf("get %d", MAX))
+		do("de 1 10")
+		do(fmt.Sprintf("permupdate %d 0 3", MAX))
+		do("syncquery 2")
+		do("de 2 -1000000")
+		// (b) on-the-fly reload: slot 3 changed owner (refilled), slot 4 only its Money on disk (left alone),
+		//     slot 5 vacated
+		seed++
+		do(resetLine(nSlot, 0, seed, baseBalances(), nil))
+		do(fmt.Sprintf("config %d", cd))
+		do("de 3 7")
+		do("pokerec 3 newown3 5555")
+		do("pokerec 4 = 777")
+		do("pokerec 5 - 0")
+		do("loaduhash 1")
+		for _, u := range []int64{3, 4, 5, 6} {
+			do(fmt.Sprintf("get %d", u))
+		}
+		do("syncquery 3")
+		do("de 3 1")
+		do("de 4 1")
+		do("permupdate 3 0 9")
+		do("loaduhash 1") // nothing changed since: a no-op
+		do("get 3")
+		// (c) the money paths under this configuration, then a fresh start again
+		do("set 7 123")
+		do("de 7 -200")
+		do(fmt.Sprintf("set %d 2147483647", MAX))
+		do("loaduhash 0")
+		do("get 7")
+		do(fmt.Sprintf("get %d", MAX))
+		// (d) registration into a slot, reload, the new owner keeps the starting balance
+		shm := baseBalances()
+		shm[8] = 4242
+		seed++
+		do(resetLine(nSlot, 0, seed, shm, nil) + " free=9")
+		do(fmt.Sprintf("config %d", cd))
+		do(fmt.Sprintf("newuser ldnew%d 31", cd))
+		do("loaduhash 1")
+		do("get 9")
+		do("loaduhash 0")
+		do("get 9")
+		do("syncquery 9")
+	}
+
 	// ---- registrations (ptt.SetupNewUser): the new account must start with ITS balance, whatever the slot held ------
 	nid := 0
 	newID := func() string { nid++; return fmt.Sprintf("nu%d", nid) }
@@ -229,7 +283,26 @@ func generate() {
 			do(resetLine(nSlot, 0, r.U64(), shm, disk))
 		}
 		n := 3 + r.Intn(38)
+		if r.Intn(4) == 0 {
+			do(fmt.Sprintf("config %d", r.Intn(2)))
+		}
+		loadsHere := r.Intn(5) == 0
 		for k := 0; k < n; k++ {
+			if loadsHere && r.Intn(6) == 0 {
+				switch r.Intn(4) {
+				case 0:
+					do("loaduhash 0")
+				case 1:
+					do("loaduhash 1")
+				case 2:
+					u := 1 + int64(r.Intn(nSlot))
+					do(fmt.Sprintf("pokerec %d pk%dx%d %d", u, h, k, r.Intn(100000)))
+				default:
+					u := 1 + int64(r.Intn(nSlot))
+					do(fmt.Sprintf("pokerec %d = %d", u, r.Intn(100000)))
+				}
+				continue
+			}
 			u := pickSlot()
 			cur := int64(0)
 			if inArr(u) {
@@ -319,6 +392,22 @@ func generate() {
 			do(fmt.Sprintf("permupdate %d 77 5", u))
 			do(fmt.Sprintf("syncquery %d", u))
 		}
+		do("loaduhash 1")
+		do("get 1")
+		do("pokerec 1 = 5")
+		do("config 0")
+		do("loaduhash 0")
+		do("get 1")
+		do("get 2")
+		do("syncquery 1")
+		do("loaduhash 1")
+		// slots beyond the records the loader found are still valid slots
+		do(fmt.Sprintf("set %d 5", MAX))
+		do(fmt.Sprintf("get %d", MAX))
+		do(fmt.Sprintf("de %d 3", MAX))
+		do(fmt.Sprintf("get %d", MAX))
+		do("de 3 4")
+		do("get 3")
 	}
 	do(fmt.Sprintf("reset nofile 0 0 %s -", csv(base)))
 	probe()
@@ -354,6 +443,8 @@ func generate() {
 		"reset 50 0 1 " + csv(base) + " " + csv(base) + " free=", "reset 50 0 1 " + csv(base) + " " + csv(base) + " free=0",
 		"reset 50 0 1 " + csv(base) + " " + csv(base) + " free=3,3", "reset 50 0 1 " + csv(base) + " " + csv(base) + " fre=3",
 		"resetconc 4 10", "resetconc x 10 1",
+		"config", "config 2", "config 1 1", "loaduhash", "loaduhash 2", "loaduhash 0 1", "pokerec 1 = ", "pokerec 0 = 5",
+		"pokerec 51 = 5", "pokerec 1 1a 5", "pokerec 1 = x", "pokerec 1 ab 2147483648",
 		"load", "load 1 2", "syncquery a", "syncquery", "permupdate 1 2", "permupdate 1 2 4294967296", "permupdate 1 2 -1",
 		"permupdate 1 x 1", "permupdate 1 2 3 4", "permupdate 1 2 12345678901",
 		"layout now", "reset", "reset 50 0 1 1,2,3 1,2,3", "reset 50 0 x " + csv(base) + " " + csv(base),
